@@ -591,3 +591,66 @@ pub fn loc_rv(l: ValuePointerRef) -> J {
     r["e"] = loc_j(l);
     r
 }
+
+// ---------------------------------------------------------------------------------------------
+// targets of the catalogue's from / try_from functions, and the functions' fixed rules
+// ---------------------------------------------------------------------------------------------
+/// What a conversion function of the catalogue returns: the intermediate value, wrapped.
+#[derive(Debug, Clone, Default, PartialEq, Eq, Hash, PartialOrd, Ord)]
+pub struct W<const K: u32, T>(pub T);
+
+impl<const K: u32, T: ToJ> ToJ for W<K, T> {
+    fn to_j(&self) -> J {
+        let mut r = rv("wrap");
+        r["name"] = json!(format!("w{K}"));
+        r["e"] = json!([self.0.to_j()]);
+        r
+    }
+}
+
+/// The inputs on which the catalogue's fallible user functions fail (controlled by the payload):
+/// odd numbers, strings containing '!', `false`; wrappers / lists / structs by their first component.
+pub fn designated(j: &J) -> bool {
+    match j["r"].as_str().unwrap_or("") {
+        "num" => j["d"].as_array().and_then(|d| d.last()).and_then(|x| x.as_u64()).map(|x| x % 2 == 1).unwrap_or(false),
+        "str" => j["s"].as_str().map(|s| s.contains('!')).unwrap_or(false),
+        "bool" => !j["b"].as_bool().unwrap_or(true),
+        "wrap" | "some" | "list" | "set" => j["e"].as_array().and_then(|e| e.first()).map(designated).unwrap_or(false),
+        "struct" | "variant" | "map" => j["e"].as_array().and_then(|e| e.first()).map(|m| designated(&m["v"])).unwrap_or(false),
+        _ => false,
+    }
+}
+
+pub trait Bump {
+    fn bump(self) -> Self;
+}
+impl Bump for u8 {
+    fn bump(self) -> Self {
+        self.wrapping_add(1)
+    }
+}
+impl Bump for String {
+    fn bump(mut self) -> Self {
+        self.push('+');
+        self
+    }
+}
+impl Bump for bool {
+    fn bump(self) -> Self {
+        !self
+    }
+}
+impl<const N: u32, T: Bump> Bump for P<N, T> {
+    fn bump(self) -> Self {
+        P(self.0.bump())
+    }
+}
+impl<const K: u32, T: Bump> Bump for W<K, T> {
+    fn bump(self) -> Self {
+        W(self.0.bump())
+    }
+}
+/// what the catalogue's `map` functions do
+pub fn bump<T: Bump>(v: T) -> T {
+    v.bump()
+}
